@@ -84,6 +84,7 @@ def observation(ev, tree):
 
 def alphabet():
     ev = []
+    ev.append(("new_run",))  # a second fuzz()/generate on the same spec object: new Evaluator, same constraint objects (their caches persist)
     for ti in range(MAX_TREES):
         ev.append(("twin", ti))         # a structurally equal tree built from scratch (as initial_population=[DerivationTree] would supply)
         ev.append(("parsed_twin", ti))  # the same word parsed again (fresh tags / sources)
@@ -104,6 +105,10 @@ def apply(name, spec, evaluator, forest, e):
 
     g = spec.grammar
     op = e[0]
+    if op == "new_run":
+        evaluator._fitness_cache.clear()
+        evaluator._solution_set.clear()
+        return True
     if op != "fuzz" and e[1] >= len(forest):
         return False
     if op in ("twin", "parsed_twin", "repair", "mutate", "crossover", "fuzz") and len(forest) >= MAX_TREES:
